@@ -4,6 +4,7 @@ import (
 	"bytes"
 	"container/heap"
 	"fmt"
+	"os"
 	"runtime"
 	"runtime/debug"
 	"sort"
@@ -191,6 +192,9 @@ type Sim struct {
 	Values map[string]any
 }
 
+var paranoidEnv = os.Getenv("DSIM_PARANOID") == "1"
+var traceAllEnv = os.Getenv("DSIM_TRACE_ALL") == "1"
+
 var active atomic.Pointer[Sim]
 
 // Active returns the running simulation or nil. Primitives fall back to the real
@@ -209,6 +213,9 @@ func Run(t *Tape, cfg Config, main func()) *Info {
 	}
 	if cfg.MaxSteps == 0 {
 		cfg.MaxSteps = 200000
+	}
+	if paranoidEnv {
+		cfg.Paranoid = true
 	}
 	if cfg.MaxSimTime == 0 {
 		cfg.MaxSimTime = time.Hour
@@ -247,7 +254,7 @@ func Run(t *Tape, cfg Config, main func()) *Info {
 	info := &Info{Outcome: s.outcome, Detail: s.detail, Violation: s.violation, Steps: s.steps, Switches: s.switches,
 		SimTime: s.now, TraceHash: s.thash, SchedSig: s.ssig, Strategy: s.stratString(), Gs: len(s.gs), Leaked: leaked,
 		Blocked: s.blocked, MainDone: s.mainDone, Probes: s.probes, Faults: s.faults, PanicTop: s.panicTop}
-	if info.Outcome != "ok" {
+	if info.Outcome != "ok" || traceAllEnv {
 		info.Trace = s.traceTail()
 	}
 	return info
